@@ -44,6 +44,8 @@ REPORTED = {
                              "dump 2 KiB): print_args let the remaining length wrap, print_char never looked at it",
     "chrome-ptr-symbol-escape": "dump --chrome printed the symbol name a pointer argument resolves to raw inside the JSON "
                                 "string of the arguments / retval member",
+    "chrome-comm-event-escape": "dump --chrome printed the new name of a renamed task (perf COMM event) raw into the "
+                                "process_name/thread_name metadata events",
     "chrome-comm-escape": "dump --chrome prints task->comm raw in the process_name/thread_name events: a double "
                           "quote or backslash in the executable's file name gives invalid JSON",
 }
@@ -113,6 +115,15 @@ def gen_case(rng, pool, big=False, avoid_trunc=True):
         argsym = nsym
         syms.append(b"strfn")
         nsym += 1
+    # scheduler events (perf: the task is switched out and in again = a leaf call of the pseudo function
+    # linux:schedule) and renames of running tasks (perf COMM events)
+    with_perf = rng.random() < 0.3
+    sched_sym = None
+    comms = []
+    if with_perf and rng.random() < 0.8:
+        sched_sym = nsym
+        syms.append(SCHED)
+        nsym += 1
     ntask = rng.choice([1, 1, 2, 2, 3])
     tasks = [(100, 100, None)]
     if ntask >= 2:
@@ -132,16 +143,25 @@ def gen_case(rng, pool, big=False, avoid_trunc=True):
         tid = rng.choice(tasks)[0]
         st = stacks[tid]
         dt = rng.choice(steps)
-        if dt == 0 and tid != last_tid:
+        if dt == 0 and (tid != last_tid or with_perf):
             dt = 1                     # equal time stamps only inside one task (cross-task ties: property C06)
         clock += dt
-        if st and (len(st) >= maxd or rng.random() < 0.45):
+        if with_perf and st and rng.random() < 0.12:
+            comms.append((clock, tid, rng.choice([b"worker", b'na"me', b"back\\slash", b"tab\there", b"\x01\x7f\xff", b"fifteen-bytes-xy",
+                                                   "caf\u00e9".encode(), pool.one()])[:15]))
+            clock += 1
+        if st and st[-1] == sched_sym:
+            recs.append((tid, False, st.pop(), clock))             # switched in again
+        elif st and sched_sym is not None and rng.random() < 0.25:
+            st.append(sched_sym)                                   # switched out inside a function
+            recs.append((tid, True, sched_sym, clock))
+        elif st and (len(st) >= maxd or rng.random() < 0.45):
             recs.append((tid, False, st.pop(), clock))
         else:
             if st and recursion and rng.random() < 0.5:
                 k = st[-1] if rng.random() < 0.5 else rng.choice(st)      # direct / mutual recursion
             else:
-                k = rng.randrange(nsym)
+                k = rng.randrange(nsym - (1 if sched_sym is not None else 0))
             st.append(k)
             recs.append((tid, True, k, clock))
             budget -= 1
@@ -151,6 +171,8 @@ def gen_case(rng, pool, big=False, avoid_trunc=True):
     for tid, _, _ in tasks:
         st = stacks[tid]
         keep = rng.randrange(0, len(st) + 1) if (leave_open and st) else 0
+        if st and st[-1] == sched_sym:
+            keep = min(keep, len(st) - 1)                          # never left switched out
         while len(st) > keep:
             clock += rng.choice(steps[1:])
             recs.append((tid, False, st.pop(), clock))
@@ -225,7 +247,7 @@ def gen_case(rng, pool, big=False, avoid_trunc=True):
     sample = min(sample, 999999999)
     exe = rng.choice(["prog", "prog", "a.out", "t-abc_1.2", "x"])
     return {"tasks": tasks, "syms": syms, "recs": recs, "sample": max(1, sample), "exe": exe,
-            "argsym": argsym, "strs": strs, "argkinds": argkinds}
+            "argsym": argsym, "strs": strs, "argkinds": argkinds, "sched_sym": sched_sym, "comms": comms}
 
 
 # ---------------------------------------------------------------------------------------------
@@ -252,7 +274,7 @@ def write_dir(case, d, cmdline=b"prog arg", with_cmdline=True, exename=None):
         return b
     for tid, pid, ppid in case["tasks"]:
         rr = [{"t": t, "type": datadir.ENTRY if ent else datadir.EXIT, "depth": 0, "addr": BASE + syms[k][0],
-               "payload": payload(i)}
+               "payload": payload(i), "sched": k == case.get("sched_sym")}
               for i, (x, ent, k, t) in enumerate(case["recs"]) if x == tid]
         depth = 0
         for r in rr:                       # depth field as libmcount writes it
@@ -263,13 +285,44 @@ def write_dir(case, d, cmdline=b"prog arg", with_cmdline=True, exename=None):
                 depth -= 1
                 r["depth"] = depth
         tasks.append({"tid": tid, "pid": pid, "ppid": ppid, "recs": rr, "start": 200 + tid})
-    desc = {"syms": syms, "base": BASE, "tasks": tasks, "cmdline": cmdline,
+    perf = perf_file(case)
+    desc = {"syms": syms, "base": BASE, "tasks": tasks, "cmdline": cmdline, "events": bool(perf),
             "exename": exename or ("/fake/" + case["exe"]), "args": bool(strs)}
+    if perf:
+        for t in tasks:        # the scheduler records of a task live in the perf file, not in its .dat
+            t["recs"] = [r for r in t["recs"] if not r.get("sched")]
     datadir.write(desc, d, with_cmdline=with_cmdline,
                   argspec={"argspec": "strfn@" + ",".join("arg%d/%s" % (n + 1, kd) for n, kd in
                                                           enumerate(case.get("argkinds") or "s")),
                            "retspec": "strfn@retval/s"} if strs else None)
+    if perf:
+        path = os.path.join(d, "info")
+        b = bytearray(open(path, "rb").read())
+        struct.pack_into("<Q", b, 16, struct.unpack_from("<Q", b, 16)[0] | datadir.FEAT_PERF_EVENT)
+        open(path, "wb").write(bytes(b))
+        open(os.path.join(d, "perf-cpu0.dat"), "wb").write(perf)
     return d
+
+
+SCHED = b"linux:schedule"
+
+
+def perf_file(case):
+    """perf-cpu0.dat: context switches (the records of the pseudo function linux:schedule: ENTRY = switched out,
+    EXIT = switched in again) and task renames (case["comms"] = [(time, tid, name bytes)]) in time order"""
+    k = case.get("sched_sym")
+    evs = []
+    pid_of = {t[0]: t[1] for t in case["tasks"]}
+    if k is not None:
+        for (tid, ent, sym, tm) in case["recs"]:
+            if sym == k:
+                evs.append((tm, struct.pack("<IHH", 14, 0x2000 if ent else 0, 24) + struct.pack("<IIQ", pid_of[tid], tid, tm)))
+    for (tm, tid, name) in case.get("comms") or []:
+        cm = name[:15] + b"\0"
+        cm += b"\0" * (-len(cm) % 8)
+        body = struct.pack("<II", pid_of[tid], tid) + cm + struct.pack("<IIQ", pid_of[tid], tid, tm)
+        evs.append((tm, struct.pack("<IHH", 3, 0, 8 + len(body)) + body))
+    return b"".join(e for _, e in sorted(evs, key=lambda x: x[0]))
 
 
 def uft(objdir, args, timeout=60):
@@ -525,10 +578,12 @@ def evaluate_cases(ctx, cases, parsed, name="cases", flame_fixed=False):
     ctx.extra["chrome_documents_not_sent_to_coq"] = len(docs) - len(kept)
     docs = kept
     defs += "Definition docs : list dcase := [\n%s\n].\n" % ";\n".join(
-        "mk_dcase (nth %d%%nat cases (mk_case [] [] [] [] 0%%N [] [] [] [] [] [] true [] [])) [%s] %s %s %s %s %s" % (
+        "mk_dcase (nth %d%%nat cases (mk_case [] [] [] [] 0%%N [] [] [] [] [] [] true [] [])) [%s] %s %s %s %s %s %s" % (
             i, "; ".join("cm %d %s" % (t, cb(cmm)) for t, cmm in dd["comms"]), cb(dd["version"]), cb(dd["date"]),
             "None" if dd["cmdline"] is None else "(Some %s)" % cb(dd["cmdline"]),
-            "true" if dd["noev"] else "false", cb(dd["raw"])) for i, dd in docs)
+            "true" if dd["noev"] else "false",
+            "[%s]" % "; ".join("rn %s %d %s" % (cn(tm), tid, cb(nm)) for tm, tid, nm in dd.get("renames", [])),
+            cb(dd["raw"])) for i, dd in docs)
     fcs = [(i, p["graphf"]) for i, p in enumerate(parsed) if p.get("graphf") is not None]
     defs += "Definition fcases : list fcase := [\n%s\n].\n" % ";\n".join(
         "mk_fcase (nth %d%%nat cases (mk_case [] [] [] [] 0%%N [] [] [] [] [] [] true [] [])) %s %s" % (
@@ -598,7 +653,8 @@ def evaluate_cases(ctx, cases, parsed, name="cases", flame_fixed=False):
 
 def case_json(c, p=None):
     j = {"tasks": c["tasks"], "syms": [s.hex() for s in c["syms"]], "recs": c["recs"], "sample": c["sample"],
-         "exe": c["exe"], "argkinds": c.get("argkinds") or "",
+         "exe": c["exe"], "argkinds": c.get("argkinds") or "", "sched_sym": c.get("sched_sym"),
+         "comms": [[tm, tid, nm.hex()] for tm, tid, nm in (c.get("comms") or [])],
          "strs": {str(i): [[kd, x.hex() if kd == "s" else x] for kd, x in v] for i, v in (c.get("strs") or {}).items()}}
     if p is not None:
         j["impl"] = {"graph": [[r[0], r[1].hex(), r[2], r[3]] for r in p["graph"]],
@@ -615,7 +671,8 @@ def case_json(c, p=None):
 def case_from_json(j):
     return {"tasks": [tuple(t) for t in j["tasks"]], "syms": [bytes.fromhex(s) for s in j["syms"]],
             "recs": [tuple(r) for r in j["recs"]], "sample": j["sample"], "exe": j["exe"],
-            "argkinds": j.get("argkinds") or "",
+            "argkinds": j.get("argkinds") or "", "sched_sym": j.get("sched_sym"),
+            "comms": [(tm, tid, bytes.fromhex(nm)) for tm, tid, nm in (j.get("comms") or [])],
             "strs": {int(i): [(kd, bytes.fromhex(x) if kd == "s" else x) for kd, x in v]
                      for i, v in (j.get("strs") or {}).items()}}
 
@@ -629,8 +686,12 @@ def doc_inputs(c, raw, cmdline, with_cmdline, noev=False):
     if not m:
         raise ParseError("no version/recorded_time in the chrome output")
     comm = os.path.basename(c["exe"]).encode()[:15]
-    return {"comms": [(t[0], comm) for t in c["tasks"]], "version": m.group(1), "date": m.group(2),
-            "cmdline": cmdline if with_cmdline else None, "noev": noev, "raw": raw}
+    last = {}
+    for tm, tid, nm in ([] if noev else c.get("comms") or []):
+        last[tid] = nm                        # update_perf_task_comm: the header shows the last name (of the time range)
+    return {"comms": [(t[0], last.get(t[0], comm)) for t in c["tasks"]], "version": m.group(1), "date": m.group(2),
+            "cmdline": cmdline if with_cmdline else None, "noev": noev, "raw": raw,
+            "renames": [] if noev else list(c.get("comms") or [])}
 
 
 def run_case(objdir, c, d, cmdline=b"prog arg", with_cmdline=True):
@@ -711,7 +772,7 @@ def parse_backtraces(out):
 
 def run_graphf(objdir, c, d, rng, func=None):
     """`uftrace graph FUNC` on the directory written by run_case -> (func, rows | None)"""
-    cands = [n for n in set(c["syms"]) if not n.startswith(b"-")]
+    cands = [n for n in set(c["syms"]) if not n.startswith(b"-") and n != SCHED]
     if func is None:
         nested = sorted(n for n in cands if "nested" in func_shape(c, n))
         if nested and rng.random() < 0.6:
@@ -1019,6 +1080,14 @@ def witnesses(ctx, objdir, hexe):
     repro["chrome-ptr-symbol-escape"] = rc != 0 or not parse_chrome(out)[0]
     report_defect(ctx, "chrome-ptr-symbol-escape", repro["chrome-ptr-symbol-escape"],
                   {"kind": "witness", "pointer_to": 'we"ird\\name', "case": case_json(ptrc)})
+    # 9. a task renamed while it runs (perf COMM event) to a name that needs escaping
+    renc = dict(base, comms=[(1150, 100, b'na"me\\x')])
+    write_dir(renc, d)
+    rc, out, err = uft(objdir, ["dump", "--chrome", "--no-pager", "-d", d])
+    ctx.case(key=("wit", "rename"), tags=["witness:renamed-task"])
+    repro["chrome-comm-event-escape"] = rc != 0 or not parse_chrome(out)[0] or out.count(b'"process_name"') != 2
+    report_defect(ctx, "chrome-comm-event-escape", repro["chrome-comm-event-escape"],
+                  {"kind": "witness", "renamed_to": 'na"me\\x', "case": case_json(renc)})
     # sanity: the plain directory is valid JSON
     ok, out = chrome_ok()
     if not ok:
@@ -1229,6 +1298,12 @@ def tags_of(c):
         t.append("open-calls")
     if any(p[2] is not None for p in c["tasks"]):
         t.append("forked-task")
+    if c.get("sched_sym") is not None and any(r[2] == c["sched_sym"] for r in c["recs"]):
+        t.append("perf:sched-out/in")
+    if c.get("comms"):
+        t.append("perf:task-renamed")
+        if any(b in (0x22, 0x5c) or b < 0x20 or b > 0x7e for _, _, nm in c["comms"] for b in nm):
+            t.append("perf:task-renamed-special-bytes")
     allargs = list((c.get("strs") or {}).values())
     if allargs:
         t.append("string-args")
@@ -1323,7 +1398,7 @@ def run(ctx):
         fixed.append({"tasks": [(100, 100, None)], "syms": [b"main", b"strfn"], "sample": 1, "exe": "prog", "argkinds": "ss",
                       "recs": [(100, True, 0, 1000), (100, True, 1, 1100), (100, False, 1, 1200), (100, False, 0, 1300)],
                       "strs": {1: [("s", b"\x01" * nn + b"\0"), ("s", b"zz\0")], 2: [("s", b"\x01" * (nn + 1) + b"\0")]}})
-    n = ctx.n(150, 1200)
+    n = ctx.n(120, 1200)
     d = os.path.join(ctx.scratch, "dir")
     i = -1
     while True:
